@@ -1166,6 +1166,50 @@ class _Rename2(ast.NodeTransformer):
         return node
 
 
+def normalise_shortcircuit(tree):
+    """`t = A or B` with an effectful B is `t = A` / `if not t: t = B` (and dually for `and`): each operand is still evaluated
+    at most once and in order; the statement form shows path-based rules when B runs.  Only plain local targets that no later
+    operand reads."""
+    n = 0
+    counter = [0]
+    for node in ast.walk(tree):
+        for field in ("body", "orelse", "finalbody"):
+            stmts = getattr(node, field, None)
+            if not isinstance(stmts, list) or not stmts or not isinstance(stmts[0], ast.stmt):
+                continue
+            i = 0
+            while i < len(stmts):
+                st = stmts[i]
+                i += 1
+                val = getattr(st, "value", None)
+                if not isinstance(val, ast.BoolOp) or all(pure(v) for v in val.values[1:]):
+                    continue
+                if isinstance(st, ast.Assign) and len(st.targets) == 1 and isinstance(st.targets[0], ast.Name):
+                    t, tail = st.targets[0].id, []
+                elif isinstance(st, ast.Return):
+                    counter[0] += 1
+                    t = f"_inl{8000 + counter[0]}_r"
+                    tail = [ast.Return(value=ast.Name(id=t, ctx=ast.Load()))]
+                else:
+                    continue
+                if any(isinstance(x, ast.Name) and x.id == t for v in val.values[1:] for x in ast.walk(v)):
+                    continue
+                new = [ast.Assign(targets=[ast.Name(id=t, ctx=ast.Store())], value=val.values[0])]
+                for v in val.values[1:]:
+                    test = ast.Name(id=t, ctx=ast.Load())
+                    if isinstance(val.op, ast.Or):
+                        test = ast.UnaryOp(op=ast.Not(), operand=test)
+                    new.append(ast.If(test=test, body=[ast.Assign(targets=[ast.Name(id=t, ctx=ast.Store())], value=v)], orelse=[]))
+                new += tail
+                for x in new:
+                    ast.copy_location(x, st)
+                    ast.fix_missing_locations(x)
+                stmts[i - 1:i] = new
+                i += len(new) - 1
+                n += 1
+    return n
+
+
 # ------------------------------------------------------------------------------------------ entry point
 def normalise_program(trees):
     """trees: path -> ast.Module (mutated in place).  Returns {path: number of inlined call sites}."""
@@ -1173,6 +1217,7 @@ def normalise_program(trees):
         normalise_loops(tree)
         while normalise_ifexp(tree):
             pass
+        normalise_shortcircuit(tree)
     inv = inventory()
     if not inv:
         return {}
